@@ -42,6 +42,51 @@ Theorem C04_verbose_refuted : w_run false = (false, 0, 1) /\ w_run true = (false
 Proof. vm_compute. split; reflexivity. Qed.
 Print Assumptions C04_verbose_refuted.
 
+(* The full statement is false in ERROR MODE as well, for the cache: the cache key has no error-mode
+   component, and a *_without_invalid rule switches error mode off while it runs.  Witness (the IR
+   the generator model produces for it):
+     start: a_without_invalid 'z' NEWLINE | b NEWLINE ;  a_without_invalid: x 'q' ;  b: x 'w' ;
+     x: invalid_x | NAME ;  invalid_x: n=NAME { foo(n) }         on the tokens  k w NEWLINE
+   With the cache, x's result computed inside a_without_invalid is replayed for b and the parse
+   succeeds; without it invalid_x runs, x's first alternative returns None and the parse fails. *)
+Definition plain_alt (conjs : list conj) (act : string) (names : list string) : ialt :=
+  {| a_has_cut := false; a_guard := false; a_conjs := conjs; a_locations := false; a_action := act; a_names := names;
+     a_explicit := false |}.
+Definition cjv (x : string) (c : call) : conj := {| cj_var := Some x; cj_call := c; cj_notnone := false |}.
+Definition mk_meth (n : string) (wo : bool) (alts : list ialt) : meth :=
+  {| m_name := n; m_deco := DMemo; m_type := "Any"; m_comment := ""; m_nullable := false; m_without_invalid := wo;
+     m_locations := false; m_loop := false; m_gather := false; m_alts := alts |}.
+Definition e_mod : ir_module :=
+  {| i_header := None; i_subheader := ""; i_class := "P"; i_keywords := ["q"; "w"; "z"]; i_soft_keywords := []; i_trailer := None;
+     i_meths :=
+       [mk_meth "start" false
+          [plain_alt [cjv "a_without_invalid" (CMeth "a_without_invalid"); cjv "literal" (CExpect "'z'");
+                      cjv "_newline" (CExpect "'NEWLINE'")] "[a_without_invalid, literal, _newline]"
+                     ["a_without_invalid"; "literal"; "_newline"];
+           plain_alt [cjv "b" (CMeth "b"); cjv "_newline" (CExpect "'NEWLINE'")] "[b, _newline]" ["b"; "_newline"]];
+        mk_meth "a_without_invalid" true
+          [plain_alt [cjv "x" (CMeth "x"); cjv "literal" (CExpect "'q'")] "[x, literal]" ["x"; "literal"]];
+        mk_meth "b" false
+          [plain_alt [cjv "x" (CMeth "x"); cjv "literal" (CExpect "'w'")] "[x, literal]" ["x"; "literal"]];
+        mk_meth "x" false
+          [{| a_has_cut := false; a_guard := true;
+              a_conjs := [{| cj_var := None; cj_call := CMeth "invalid_x"; cj_notnone := false |}];
+              a_locations := false; a_action := "None  # pragma: no cover"; a_names := []; a_explicit := true |};
+           plain_alt [cjv "name" (CMeth "name")] "name" ["name"]];
+        mk_meth "invalid_x" false
+          [{| a_has_cut := false; a_guard := false; a_conjs := [cjv "n" (CMeth "name")]; a_locations := false;
+              a_action := "foo ( n )"; a_names := ["n"]; a_explicit := true |}]] |}.
+Definition e_toks : list rtok := [mkt 1 "k" 0; mkt 1 "w" 2; mkt 4 "" 3; mkt 0 "" 4].
+Definition e_aeval (text : string) (e : env) : option value :=
+  if String.eqb text "None  # pragma: no cover" then Some VNone else Some VTrue.
+Definition e_run (use_cache : bool) :=
+  let '(o, s) := run KD e_toks false use_cache e_mod e_aeval [] [("NEWLINE", 4%N)] 40 "start" (with_invalid init_state true) in
+  (match o with Ok v => truthy v | _ => false end, pos s).
+
+Theorem C04_cache_refuted_in_error_mode : e_run true = (true, 3) /\ e_run false = (false, 0).
+Proof. vm_compute. split; reflexivity. Qed.
+Print Assumptions C04_cache_refuted_in_error_mode.
+
 (* What is proved for every module, input and state: a cache hit replays exactly the recorded
    result and end position without running the body (quiet and verbose alike) ... *)
 Theorem C04_cache_hit_replays : forall toks verbose name arg body st tree endmark,
